@@ -3,7 +3,7 @@ CONSTANTS
   c1 = c1  c2 = c2  c3 = c3  w1 = w1  w2 = w2  rp = rp  rb = rb
   NSlab = 3  Cap = 3  Q = 1  NPkt = 3
   Clients = {c1, c2}
-  Kinds <- KQuick
+  Kinds <- KPortable
   Workers = {w1}
   PReaders = {rp}
   BReaders <- NoReaders
@@ -11,5 +11,6 @@ CONSTANTS
   Inline = FALSE  BatchTX = FALSE  Drops = TRUE
   ScrubTxLen = TRUE  ResetRawSA = TRUE  BothOnHandoff = FALSE
 SPECIFICATION Spec
+SYMMETRY SymClients
 INVARIANTS TypeOK SingleOwner ReleaseOnce ReplyIsOwn SilentStaysSilent AtMostOneSend LeaseBound QuiescedIff BurstBound HandoffClean FreeIsScrubbed
 CHECK_DEADLOCK FALSE
